@@ -27,13 +27,13 @@ class RsaKeySizeTransformer(LibcstResultTransformer):
 
         if original_node.args[1].keyword is None:
             new_args = [
-                original_node.args[0],
+                updated_node.args[0],
                 self.make_new_arg(RSA_KEYSIZE),
-                *original_node.args[2:],
+                *updated_node.args[2:],
             ]
         else:
             new_args = self.replace_args(
-                original_node,
+                updated_node,
                 [NewArg(name="key_size", value=RSA_KEYSIZE, add_if_missing=False)],
             )
         return self.update_arg_target(updated_node, new_args)
